@@ -1,6 +1,7 @@
 /- C19 model driver: executes the model and the executable specification on harness cases. -/
 import CweModel.Base.Proto
 import CweModel.C19.Model
+import CweModel.C19.Loader
 open Lean CweModel.Proto
 
 namespace CweModel.C19
@@ -34,9 +35,43 @@ def verdict (cls impl model : String) (spec : Option String) : String :=
   | none =>
     if impl != model then s!"diff class={cls} model={model} impl={impl}" else s!"ok {cls} modelonly"
 
+def segStr (s : Seg) : String :=
+  let b (x : Bool) := if x then "1" else "0"
+  s!"{s.base}:{bytesHex s.bytes}:{b s.r}{b s.w}{b s.x}"
+
+def showSegO : Option Seg → String
+  | some s => segStr s
+  | none => "panic"
+
+/-- constructor cases: the model IS the specification of the byte/flag layout (see `Props`); the
+verdict is `spec` on any difference, because every theorem about the constructors is about this model -/
+def handleCtor (j : Json) (q : String) : Except String String := do
+  let bin ← hexBytes (← strF j "bin")
+  let impl ← strF j "impl"
+  let m ← match q with
+    | "elfseg" => pure (showSegO (fromElfSegment bin (← natF j "off") (← natF j "filesz") (← natF j "vaddr")
+        (← natF j "memsz") (← natF j "flags")))
+    | "elfsec" => pure (showSegO (fromElfSection bin (← natF j "base") (← natF j "shtype") (← natF j "flags")
+        (← natF j "off") (← natF j "size") (← natF j "align")))
+    | "pesec" => pure (showSegO (fromPeSection bin (← natF j "rawptr") (← natF j "rawsize") (← natF j "vsize")
+        (← natF j "vaddr") (← natF j "chars")))
+    | "hex" => pure (match parseHexStringToU64 (← strF j "s") with
+        | some x => s!"ok:{x}"
+        | none => "err")
+    | "bare" =>
+      let cfg : BareMetalConfig := { processorId := ← strF j "pid", flashBase := ← strF j "flash",
+                                     ramBase := ← strF j "ram", ramSize := ← strF j "ramsize" }
+      pure (match newFromBareMetal bin cfg with
+        | .ok (segs, le) => s!"ok:{if le then 1 else 0}:0:{String.intercalate ";" (segs.map segStr)}"
+        | .err => "err")
+    | _ => throw s!"unknown ctor {q}"
+  if impl == m then return s!"ok ctor-{q}"
+  else return s!"spec class=ctor-{q} expected={m} impl={impl}"
+
 def handleE (line : String) : Except String String := do
   let j ← Json.parse line
   let q ← strF j "q"
+  if (optF j "bin").isSome then return ← handleCtor j q
   let le ← boolF j "le"
   let segs0 ← mapM' parseSeg (← arrF j "segs")
   let off := (natF j "off").toOption.getD 0
